@@ -1279,8 +1279,16 @@ func checkC24(w *World, r *Report, tier string) propMeta {
 						return ev("hasConditions")
 					}
 				}
+				if isNilConst(c.Y) && ((c.Op == "==" && taken) || (c.Op == "!=" && !taken)) {
+					if p := w.path(c.X); p == "p:pruneBloomQuery" || p == "p:pruneBloomQuery.Expression" {
+						return ev("nothingToTest") // no bloom query / no expression at all
+					}
+				}
 				if c.Op == "truth" && taken && strings.HasPrefix(w.path(c.X), "call:planBlockFilterReads@") {
 					return ev("hasSections")
+				}
+				if c.Op == "truth" && !taken && strings.HasPrefix(w.path(c.X), "call:planBlockFilterReads@") {
+					return ev("nothingToTest") // no block carries a filter section
 				}
 				return nil
 			},
@@ -1310,6 +1318,13 @@ func checkC24(w *World, r *Report, tier string) propMeta {
 			}
 			if _, elems, ok := appendedElems(c); ok && len(elems) == 1 && w.typeName(elems[0].Type()) == "blockScanCandidate" {
 				f := fl.Before(in)
+				if !f.May("filtersRead") {
+					// a block queued for scanning without its filters having been
+					// consulted: only when there is no expression at all, or no
+					// section to read — an expression that merely has no leaf
+					// (an empty Or is false) must still be evaluated
+					r.check(f.Must("nothingToTest"), r2, "evaluateBlockFilters:unfiltered-survivor-only-without-expression", w.instrPos(in), "filters skipped only with no expression or no section", "blocks are queued for scanning without consulting their filters on a path where the prune query has an expression and the file has sections: whatever the filters rule out is read anyway")
+				}
 				if f.May("filtersRead") {
 					n++
 					r.check(f.Must("survived") && !f.May("pruned"), r2, "evaluateBlockFilters:survivor-only-if-survived", w.instrPos(in), "scanned only if its filters did not rule it out", "a block whose filters were read is queued for scanning without having survived them: pruning is ineffective")
